@@ -14,7 +14,7 @@
 namespace Amgcl.IO
 
 /-- a byte; notation (not a definition) so that numerals in byte positions are plain `Nat` numerals -/
-notation "Byte" => Nat
+scoped notation "Byte" => Nat
 abbrev Bytes := List Nat
 
 inductive Outcome (α : Type) where
